@@ -106,8 +106,16 @@ def writer_script(cfg, content_file="in.dat", out_file="out.zck", seg=None):
     return "\n".join(L) + "\n"
 
 
-def reader_script(path="out.zck", pre=(), sizes=(4096,), extra=0, cls="input", meta=False, mode="r"):
-    L = ["fopen 1 %s %s %s" % (path, mode, cls), "create 1", "init_read 1 1"]
+def reader_script(path="out.zck", pre=(), sizes=(4096,), extra=0, cls="input", meta=False, mode="r", pins=None):
+    """pins=(hash type, hex digest[, total header length]): open step by step with the header pinned to those values."""
+    L = ["fopen 1 %s %s %s" % (path, mode, cls), "create 1"]
+    if pins:
+        L += ["init_adv_read 1 1", "iopt 1 %d %d" % (VAL_HEADER_HASH_TYPE, pins[0]), "sopt 1 %d s:%s" % (VAL_HEADER_DIGEST, pins[1])]
+        if len(pins) > 2:
+            L.append("iopt 1 %d %d" % (VAL_HEADER_LENGTH, pins[2]))
+        L += ["read_lead 1", "read_header 1"]
+    else:
+        L.append("init_read 1 1")
     if meta:
         L.append("meta 1")
     for p in pre:
